@@ -1,4 +1,5 @@
 import AwsVerif.Proofs.C07.RunAll
+import AwsVerif.Proofs.C06.Bridge
 /-!
 C07 — task scheduler runs every task exactly once, never early, in time order.
 
@@ -190,10 +191,17 @@ theorem c07_uses_c06 {n : Nat} (hn : n < 2^63) (P : Script) (fuel : Nat) (ops : 
         ∃ i, s.timed.handles e.uid = some i ∧ s.timed.items[i]? = some e) ∧
     (∀ t, (∀ e ∈ s.timed.items.toList, e.uid ≠ t) →
         s.timed.handles t = none ∧ remove tsCmp s.timed t = (s.timed, .error .badNode)) ∧
-    (∀ e, top s.timed = .ok e → ∀ x ∈ s.timed.items.toList, e.key ≤ x.key) := by
+    (∀ e, top s.timed = .ok e → ∀ x ∈ s.timed.items.toList, e.key ≤ x.key) ∧
+    -- the removal by handle in `cancel_task` goes through the guards of `aws_priority_queue_remove` as generated
+    -- from priority_queue.c (`c06_bridge_remove_guard`)
+    (∀ t, remove tsCmp s.timed t =
+        if Gen.HeapIdx.remove_guard (AwsVerif.Proofs.C06.curIndex (s.timed.handles t)) s.timed.items.size
+            (if s.timed.bp.isSome then 1 else 0) = 0
+        then removeNode tsCmp s.timed (AwsVerif.Proofs.C06.curIndex (s.timed.handles t)) else (s.timed, .error .badNode)) := by
   subst hs
   have hg := (good_of_not_diverged (reach_good hn P fuel ops).1 hd).sinv
-  refine ⟨hg.heap, hg.heap.heap, hg.heap.frame.bpok, ?_, ?_, ?_⟩
+  refine ⟨hg.heap, hg.heap.heap, hg.heap.frame.bpok, ?_, ?_, ?_,
+    fun t => AwsVerif.Proofs.C06.remove_eq_guard tsCmp _ t (by have := heap_size_lt hg; omega)⟩
   · intro e he
     have hm : e.uid ∈ heapTasks (runOps fuel P (St.init n) ops) := mem_heapTasks.mpr ⟨e, he, rfl⟩
     obtain ⟨i, hi, hit⟩ := heap_live hg hm
